@@ -564,6 +564,7 @@ class C05(Check):
             ctx.notes['helpers_skipped'] = repr(e)
         ctx.phase(self.corr_specs, ctx)
         ctx.phase(self.oracle_classify, ctx)
+        ctx.phase(self.corr_lex2, ctx)
         ctx.phase(self.oracle_escape_spellings, ctx)
         ctx.phase(self.oracle_completion, ctx)
         ctx.phase(self.oracle_errors, ctx)
@@ -976,6 +977,50 @@ class C05(Check):
                                 {'expected': wexp, 'got': wgot}, known=known)
 
     # -- escape spellings inside names: every name-bearing class x code point x digit spelling x terminator x position
+    # -- lexeme separation for all classes: the theorem's statement against the implementation -------------
+    def corr_lex2(self, ctx):
+        """`lexeme_separation_all` says: for well-formed lexeme lists the MODEL yields `expectedAll` (comments
+        filtered when off). Here the Lean definitions (`Lex2.WF` by `decide`, `render2`, `expectedAll`) are evaluated
+        by the driver on generated lists and compared with the Python rendering and with what the IMPLEMENTATION
+        yields for that text."""
+        from harness import c05_lex2
+        rng = ctx.sub_rng('lex2')
+        lines, cases = [], []
+        for _ in range(ctx.n(2500, 40000)):
+            words, text, exp = c05_lex2.g_list(rng)
+            for doc in (True, False):
+                lines.append('lex2 %d %s' % (doc, ' '.join(words)))
+                cases.append((words, text, exp, doc))
+        out = ctx.driver(lines) if ctx.model_ok else []
+        clause = 'a text produced from known CSS tokens with unambiguous separators is recovered'
+        for (words, text, exp, doc), m in zip(cases, out):
+            head, _, rest = m.partition(' |')
+            hw = head.split()
+            want = [tv for tv in exp if doc or tv[0] != 'COMMENT']
+            ctx.case(key=('lex2', text, doc), nontrivial=True, kind='lex2')
+            for w in words:
+                ctx.dist['lex2:' + w.split(',')[0]] += 1
+            if len(hw) != 2 or hw[0] != '1' or dec(hw[1]) != text:
+                ctx.disagree('lexeme list: well-formedness / rendering (python generator vs Lean Lex2.WF, render2)',
+                             {'words': words, 'text': enc(text)}, '1 ' + enc(text), head)
+                continue
+            mexp = []
+            for w in rest.split():
+                typ, val = w.split(':')
+                mexp.append((typ, dec(val)))
+            if mexp != want:
+                ctx.disagree('lexeme list: expected tokens (python generator vs Lean expectedAll)',
+                             {'words': words, 'text': enc(text), 'doc': doc}, repr(want), repr(mexp))
+                continue
+            try:
+                got = [(t[0], t[1]) for t in impl_tokens(text, False, doc)]
+            except Exception as e:   # noqa
+                ctx.violate('tokenising any text terminates', {'text': enc(text), 'repr': repr(text)}, repr(e))
+                continue
+            if got != mexp:
+                ctx.violate(clause, {'text': enc(text), 'full': False, 'doc': doc, 'repr': repr(text)},
+                            'lexemes %r: expected %r, got %r' % (words, mexp, got))
+
     def oracle_escape_spellings(self, ctx):
         cps = [0xE9, 0xC9, 0xAB, 0xB5, 0xF6, 0xDF, 0xA0, 0xFFFD, 0xABCD, 0x1F600, 0x10FFFF, 0x41, 0x6B, 0x3BB, 0x20AC,
                0xB, 0x7A]
